@@ -212,7 +212,8 @@ def solve_smt2(o, timeout_ms=20000, cvc5=True, both=False):
                 o['status'] = 'refuted'
                 o['backend'] = 'cvc5'
     if both and o['status'] == 'proved' and o['backend'] == 'z3' and os.path.exists(CVC5) and 'lambda' not in smt2:
-        res = run_cvc5(smt2, max(timeout_ms / 1000.0, 5))
+        # cross-check of a z3 proof by cvc5 (thorough tier): short budget per obligation, `sat` there is a disagreement
+        res = run_cvc5(smt2, 10)
         o['cross'] = res
         if res == 'sat':
             o['status'] = 'disagree'
